@@ -102,10 +102,12 @@ CLAIMED = {
          "6/C12", "Coq proof: everyg = reversed conjunction, empty case + for-vs-explicit-conjunction oracle on the implementation",
          "Depends on C04 for order-insensitivity of conjunction."),
  "C22": ("Theorems: #with_constraint = #take_constraint + store size is preserved by every state operation (unify, disunify, posting and "
-         "re-running every constraint kind, domains, normalisation with dropped constraints), for all fuel; a successful unification logs "
-         "exactly one extension event carrying exactly its new bindings.",
-         "6/C22", "Coq proof: hook-balance invariant over all state operations + instrumented-User differential run with probes",
-         "The invariant is proved per state operation; its lift over stream construction is immediate (states are passed unchanged) but not mechanised."),
+         "re-running every constraint kind, domains, normalisation with dropped constraints), for all fuel, and therefore holds in every "
+         "state of every stream the engine builds and in every answer Solver::next delivers, for all goals and definitions (lifted over "
+         "the search by a generic stream-invariant theorem); a successful unification logs exactly one extension event carrying exactly "
+         "its new bindings.",
+         "6/C22", "Coq proof: hook-balance invariant over all state operations, lifted to every reachable stream state and answer + instrumented-User differential run with probes",
+         "The User's own hook bodies are modelled as a log; absolute call counts depend on HashSet order and are not compared."),
  "C05": ("Theorems over the stream model: everything the engine delivers is admissible for the reference stream semantics, in which "
          "depth-first disjunction is concatenation in clause order and depth-first conjunction is the list-monad bind (all sizes, depths, "
          "fuel). Tied to the code by a step-exact differential run (answer sequence and engine-step count per answer).",
